@@ -100,6 +100,15 @@ pub fn canon(v: &Value) -> String {
       }
       format!("record:[{}]", cols.join(";"))
     }
+    Value::Enum(e) => {
+      let e = e.borrow();
+      let names = e.names.borrow();
+      let vs: Vec<String> = e.variants.iter().map(|(id, payload)| {
+        let n = names.get(id).cloned().unwrap_or(format!("#{}", id));
+        match payload { Some(p) => format!("{}({})", n, canon(p)), None => n }
+      }).collect();
+      format!("enum:{}", vs.join("|"))
+    }
     Value::Tuple(t) => { let t = t.borrow(); format!("tup:({})", t.elements.iter().map(|x| canon(x)).collect::<Vec<_>>().join(";")) }
     Value::Atom(a) => { let a = a.borrow(); let id = (a.0).0; let d = (a.0).1.borrow(); format!("atom:{}", d.get(&id).cloned().unwrap_or(format!("#{}", id))) }
     Value::Empty => "empty".to_string(),
